@@ -24,6 +24,21 @@ fn pk_bytes(k: &PublicKey) -> [u8; 49] {
     }
     o
 }
+/// A 49-byte compressed public key through the stable decoder, with the case split on the tag byte made HERE: the decoder
+/// returns early for a tag other than 02/03 (repo commit b3fc522) in front of the two model calls of point decoding, and a
+/// symbolic early return there leaves a symbolic memo-table size behind (README rule 3b). Inside each branch the tag is a
+/// literal, both branches make the same number of model calls, so the merge is harmless. Callers guarantee tag in {02, 03}
+/// (every other tag: public_key_codec_49, "[C08] a 49-byte public key must be a compressed point").
+fn decode_compressed(pkb: &[u8; 49]) -> Result<PublicKey, PasetoError> {
+    let mut b = *pkb;
+    if pkb[0] == 2 {
+        b[0] = 2;
+        <V3 as HasKey<Public>>::decode(&b)
+    } else {
+        b[0] = 3;
+        <V3 as HasKey<Public>>::decode(&b)
+    }
+}
 fn payload_of(msg: &[u8]) -> Vec<u8> {
     let mut p = Vec::with_capacity(msg.len() + SIG);
     p.extend_from_slice(msg);
@@ -94,7 +109,7 @@ pub fn verify_accepts_spec(M: usize, F: usize, A: usize, twin: bool) {
     // the verifier's key arrives as the 49 specified bytes (k3.public), through the stable decoder
     let pkb = vspec::v3::p384_pk(&d);
     let _honest = sk_of(&d); // the key pair was honestly generated: its point is on the curve (model assumption made at derivation)
-    let pk = match <V3 as HasKey<Public>>::decode(&pkb) {
+    let pk = match decode_compressed(&pkb) {
         Ok(k) => k,
         Err(_) => { vassert!(false, "[C08] the compressed public key of a valid scalar is accepted"); return; }
     };
@@ -168,7 +183,9 @@ pub fn verify_rejects_tamper(M: usize, F: usize, A: usize) {
         2 => { kani::assume(idx < F); f2b[idx] ^= 1 << bit; }
         _ => { kani::assume(idx < A); a2b[idx] ^= 1 << bit; }
     }
-    let pk = match <V3 as HasKey<Public>>::decode(&pkb) { Ok(k) => k, Err(_) => return };
+    // a flipped tag bit other than bit 0 gives a tag outside {02, 03}: rejected by the decoder (public_key_codec_49); 02 <-> 03 stays
+    kani::assume(pkb[0] == 2 || pkb[0] == 3);
+    let pk = match decode_compressed(&pkb) { Ok(k) => k, Err(_) => return };
     let mut beforeb = [0u8; TX];
     beforeb[..T].copy_from_slice(tok);
     let mut rb = [0u8; 48];
